@@ -77,7 +77,7 @@ pub fn query_set(height: u32, shape: u8, sel: &[u16]) -> Vec<u64> {
 }
 
 pub fn strategy(max_h: u32) -> impl Strategy<Value = Case> {
-    (0..=max_h, 0u32..20, any::<u64>(), 0u8..6, proptest::collection::vec(any::<u16>(), 1..40), 0u8..7, any::<u16>(), any::<u16>())
+    (0..=max_h, 0u32..20, any::<u64>(), 0u8..6, proptest::collection::vec(any::<u16>(), 1..40), 0u8..9, any::<u16>(), any::<u16>())
         .prop_map(|(height, nv, seed, shape, sel, corrupt, ca, cb)| Case {
             height,
             nvf: nv % (height + 3),
@@ -173,6 +173,23 @@ pub fn check(case: &Case) -> Outcome {
             auth.push(delta);
             class = "honest/surplus_trailing_sibling".into();
         }
+        7 | 8 => {
+            // an index moved out of range by a multiple of the tree size (the same node positions on the
+            // way up): one position, or (8) every position by the same multiple
+            let mult = [1u64, 2, 3, 1 << 20][(case.cb % 4) as usize];
+            if h + 22 < 64 {
+                if case.corrupt == 7 {
+                    let k = pick(case.ca, claim.len() as u64) as usize;
+                    claim[k].0 += mult << h;
+                } else {
+                    for c in claim.iter_mut() {
+                        c.0 += mult << h;
+                    }
+                }
+                class = format!("corrupt/index_out_of_range/{}", if case.corrupt == 7 { "one" } else { "all" });
+                corrupted = true;
+            }
+        }
         _ => {}
     }
     let reference = ref_verify(kind, nvf, h, &claim, &auth) == Some(root);
@@ -203,7 +220,7 @@ pub fn check(case: &Case) -> Outcome {
 }
 
 fn case_corrupt_name(c: u8) -> String {
-    ["none", "value", "index", "sibling", "root", "delete_sibling", "surplus"][c as usize % 7].to_string()
+    ["none", "value", "index", "sibling", "root", "delete_sibling", "surplus", "index_out_of_range", "index_out_of_range"][c as usize % 9].to_string()
 }
 fn class_key(s: &str) -> String {
     s.to_string()
@@ -316,7 +333,7 @@ pub fn run(ctx: &Ctx) -> Report {
     for height in 0..=8u32 {
         for nvf in 0..=height + 2 {
             for shape in 0..3u8 {
-                for corrupt in 0..6u8 {
+                for corrupt in [0u8, 1, 2, 3, 4, 5, 7, 8] {
                     grid.push(Case {
                         height,
                         nvf,
@@ -356,4 +373,4 @@ pub fn replay(_ctx: &Ctx, v: &Value) -> Result<Outcome, String> {
     Ok(check(&c))
 }
 
-pub const RULE: &str = "proptest-generated (height 0..=10 quick / 14 thorough, nvf 0..=height+2, PRF leaves, query set from 6 shape classes, 0/1 corruption of 6 kinds incl. Merkle-node deltas that only touch bits above the masked-hash width) plus a deterministic grid over every (height<=8, nvf) x special shape x corruption; plus large query sets (every leaf / every second leaf of trees of height 11..=15, thorough 17) run in a child process on a default-size thread stack so that an abort is observed; plus single openings of sparse trees of height 15..=250 (index as a big integer) with 4 corruptions; non-trivial = corruption that makes the claim semantically false (re-verified against the full tree), or friendly/masked boundary strictly inside the tree, or single/adjacent-pair/whole-tree shape; distinct by case hash, per hash build";
+pub const RULE: &str = "proptest-generated (height 0..=10 quick / 14 thorough, nvf 0..=height+2, PRF leaves, query set from 6 shape classes, 0/1 corruption of 8 kinds incl. indices moved out of range by a multiple of the tree size (one / all positions) and Merkle-node deltas that only touch bits above the masked-hash width) plus a deterministic grid over every (height<=8, nvf) x special shape x corruption; plus large query sets (every leaf / every second leaf of trees of height 11..=15, thorough 17) run in a child process on a default-size thread stack so that an abort is observed; plus single openings of sparse trees of height 15..=250 (index as a big integer) with 4 corruptions; non-trivial = corruption that makes the claim semantically false (re-verified against the full tree), or friendly/masked boundary strictly inside the tree, or single/adjacent-pair/whole-tree shape; distinct by case hash, per hash build";
